@@ -45,11 +45,13 @@ theorem flag_bits :
     lb_real ≤ lb_funcdef_ref ∧ lb_real ≤ lb_funcenv_ref ∧ lb_funcdef_ref ≠ lb_integer ∧ lb_funcenv_ref ≠ lb_integer := by decide
 
 /-- The hook programs of Abstract.lean make the context calls that the current `int64_marshal` / `int64_unmarshal`
-(inttypes.c) and `janet_chanat_marshal` / `janet_chanat_unmarshal` (ev.c) make, in the same order (a loop counts once; the
+(inttypes.c), `janet_chanat_marshal` / `janet_chanat_unmarshal` (ev.c) and `peg_marshal` / `peg_unmarshal` (peg.c) make, in the same order (a loop counts once; the
 channel's `janet_unmarshal_abstract` / `_threaded` are the two arms of one branch). -/
 theorem hook_calls_match_model :
     hookCalls (int64Items 0) = int64MarshalCalls ∧ progCalls int64Prog = int64UnmarshalCalls ∧
     hookCalls (chanItems 0 0 0 [.nil]) = squeeze chanMarshalCalls ∧
-    progCalls chanProg = chanUnmarshalCalls.filter (· ≠ "abstract_threaded") := by decide
+    progCalls chanProg = chanUnmarshalCalls.filter (· ≠ "abstract_threaded") ∧
+    hookCalls (pegItems [0] [.nil]) = pegMarshalCalls.map (fun s => if s = "size" then "int64" else s) ∧
+    progCalls pegProg = pegUnmarshalCalls.map (fun s => if s = "size" then "int64" else s) := by decide
 
 end JanetModel.Marsh.CodeObligations
